@@ -26,7 +26,10 @@ DRIVER = "drv_heap"
 HU_DRIVER = "drv_heapaudit"
 RQ_DRIVER = "drv_revqueue"
 LEAN_TARGETS = ["OmplModel.Props.C11", DRIVER, HU_DRIVER, RQ_DRIVER]
+# worker threads for the script runs (VERIF_WORKERS caps it on a shared, loaded machine)
+WORKERS = max(1, min(16, int(os.environ.get("VERIF_WORKERS", "0")) or (os.cpu_count() or 4)))
 CMPS = ["less", "greater", "div4"]
+CMPS_ALL = ["less", "greater", "div4", "less", "div4", "mod7", "tie"]   # round 10: one-class order and a residue order
 
 
 def lt_of(cmp):
@@ -34,6 +37,10 @@ def lt_of(cmp):
         return lambda a, b: a // 1024 < b // 1024
     if cmp == "greater":
         return lambda a, b: a // 1024 > b // 1024
+    if cmp == "tie":
+        return lambda a, b: False
+    if cmp == "mod7":
+        return lambda a, b: (a // 1024) % 7 < (b // 1024) % 7
     return lambda a, b: a // 4096 < b // 4096
 
 
@@ -119,8 +126,8 @@ class Gen:
 
 
 def gen_random(rng, nops):
-    cmp = rng.choice(CMPS)
-    g = Gen(rng, cmp, rng.choice([3, 15, 200, 100000]))
+    cmp = rng.choice(CMPS_ALL)
+    g = Gen(rng, cmp, rng.choice([0, 3, 15, 200, 100000]))
     for _ in range(nops):
         r = rng.below(100)
         if r < 34:
@@ -183,6 +190,126 @@ def gen_directed_remove(rng):
         if rng.chance(1, 3):
             g.top()
     g.drain(n + 1)
+    return g.lines
+
+
+def gen_directed_update(rng):
+    """in-place key changes aimed at both directions and at ties: a heap of 7..40 elements (built by insert, by bulk insert or by
+    buildFrom), then update(handle) with a key below everything / above everything / equal to the current parent's or a child's
+    value / unchanged, rebuild after writing EVERY key, each probed by top and a partial drain."""
+    cmp = rng.choice(["less", "greater", "div4", "mod7"])
+    g = Gen(rng, cmp, 60)
+    n = rng.range(7, 40)
+    how = rng.below(3)
+    if how == 0:
+        for _ in range(n):
+            g.ins(10 + rng.below(50))
+    elif how == 1:
+        g.insl(n)
+    else:
+        g.build(n)
+    for _ in range(rng.range(3, 12)):
+        if not g.live:
+            break
+        h = g.pick()
+        r = rng.below(6)
+        if r == 0:
+            g.lines.append("set %d %d" % (h, g.key(0)))          # below / equal to everything under `less`
+        elif r == 1:
+            g.lines.append("set %d %d" % (h, g.key(100)))        # above everything under `less`
+        elif r == 2:
+            g.lines.append("set %d %d" % (h, g.key(10 + rng.below(50))))
+        elif r == 3:
+            other = g.pick()
+            g.lines.append("poke 4 %d %d %d %d" % (h, g.key(rng.below(70)), other, g.key(rng.below(70))))   # same handle twice happens
+        elif r == 4:
+            parts = []
+            for x in g.live:
+                parts += [str(x), str(g.key(rng.below(70)))]
+            g.lines.append("poke %d %s" % (len(parts), " ".join(parts)))                                  # every key rewritten, rebuild
+        else:
+            g.rm(h)
+        if rng.chance(1, 2):
+            g.top()
+        if rng.chance(1, 4):
+            g.pop()
+    g.drain(n + 2)
+    return g.lines
+
+
+def gen_history(rng):
+    """reuse after clear / buildFrom / full drain, handles of an earlier life (must answer `dead` on both sides and change
+    nothing), empty and one-element containers for every operation, sort() while the heap is loaded."""
+    cmp = rng.choice(CMPS_ALL)
+    g = Gen(rng, cmp, rng.choice([0, 2, 50]))
+    old = []
+    for phase in range(rng.range(2, 5)):
+        r = rng.below(5)
+        if r == 0:
+            g.insl(rng.choice([0, 1, 2, 3, 8]))
+        elif r == 1:
+            g.build(rng.choice([0, 1, 2, 3, 4, 5, 6, 7, 8, 9]))
+        elif r == 2:
+            for _ in range(rng.choice([1, 2, 5])):
+                g.ins()
+        elif r == 3:
+            g.poke(0)                       # rebuild() with nothing changed
+            g.insl(0)
+        else:
+            g.sort(rng.choice([0, 1, 2, 7]))
+        for _ in range(rng.range(0, 6)):
+            q = rng.below(8)
+            if q == 0 and old:
+                g.lines.append("rm %d" % rng.choice(old))
+            elif q == 1 and old:
+                g.lines.append("set %d %d" % (rng.choice(old), g.key()))
+            elif q == 2 and old and g.live:
+                g.lines.append("poke 4 %d %d %d %d" % (g.pick(), g.key(), rng.choice(old), g.key()))   # one dead handle: nothing may change
+            elif q == 3:
+                g.sort(rng.choice([0, 1, 3, 6]))
+            elif q == 4:
+                g.pop()
+            elif q == 5 and g.live:
+                g.rm(g.pick())
+            elif q == 6:
+                g.set() if g.live else g.pop()
+            else:
+                g.top()
+        old += g.live
+        e = rng.below(4)
+        if e == 0:
+            g.clear()
+        elif e == 1:
+            g.drain(len(g.live) + 1)
+            g.live = []
+        elif e == 2:
+            g.build(rng.choice([0, 1, 4]))
+    g.drain(g.next + 2)
+    return g.lines
+
+
+def gen_big(rng):
+    """deep heaps (300-700 elements): long sift paths, removal of deep interior slots, bulk insert into a loaded heap."""
+    cmp = rng.choice(["less", "div4", "mod7"])
+    g = Gen(rng, cmp, rng.choice([5, 1000]))
+    n = rng.range(300, 700)
+    if rng.chance(1, 2):
+        g.build(n)
+    else:
+        g.insl(n)
+    for _ in range(60):
+        r = rng.below(5)
+        if r == 0:
+            g.rm(g.pick() if g.live else 0)
+        elif r == 1:
+            g.set()
+        elif r == 2:
+            g.pop()
+        elif r == 3:
+            g.insl(rng.below(20))
+        else:
+            g.top()
+    g.lines += ["pop"] * (g.next + 1)
     return g.lines
 
 
@@ -311,7 +438,8 @@ def oracle(script, out):
             exp = "ok"
         n, arr, ps = parse_dump(dump)
         if op == "pop" and before:
-            gone = [h for h in before if h not in dict(arr)]
+            present = dict(arr)
+            gone = [h for h in before if h not in present]
             if len(gone) != 1 or n != len(before) - 1:
                 return (i, "pop did not remove exactly one element"), disorder
             k = before[gone[0]]
@@ -337,6 +465,9 @@ def oracle(script, out):
             return (i, "contents differ from the live handle->key map"), disorder
         if ps != "ps=1":
             return (i, "an element's position field does not equal its index"), disorder
+        pf = [x for x in dump.split() if x.startswith("pf=")]
+        if pf and pf[0][3:] and [int(x) for x in pf[0][3:].split(",")] != list(range(n)):
+            return (i, "the listed position fields are not 0..n-1"), disorder
         # consecutive pops must come out in non-decreasing order
         for a in range(len(pops) - 1):
             if lt(pops[a + 1], pops[a]):
@@ -355,10 +486,56 @@ def run_script(ck, hbin, script):
     return impl or [], rc, err, model
 
 
-def judge(ck, hbin, script, tag):
+def classify(ck, script, impl):
+    """input distribution (ck.count): which slot a removal hit, which way an update moved its element, dead handles, sort on a
+    loaded heap, container sizes of the bulk operations - read off the implementation's own dumps."""
+    ck.count("cmp:" + script[0].split("=")[1])
+    prev = []
+    for ln, o in zip(script[1:], impl):
+        res, _, dump = o.partition(" | ")
+        if not dump:
+            break
+        try:
+            n, arr, _ps = parse_dump(dump)
+        except (ValueError, IndexError):
+            break
+        t = ln.split()
+        if res.startswith("dead"):
+            ck.count("class:dead-handle-" + t[0])
+        elif t[0] == "rm" and res.startswith("ok"):
+            slot = [i for i, (h, _k) in enumerate(prev) if h == int(t[1])]
+            if slot:
+                i = slot[0]
+                last = prev[-1][0]
+                now = [j for j, (h, _k) in enumerate(arr) if h == last]
+                where = "last" if i == len(prev) - 1 else ("root" if i == 0 else "interior")
+                move = ""
+                if where != "last" and now:
+                    move = "-moved-up" if now[0] < i else ("-moved-down" if now[0] > i else "-stayed")
+                ck.count("class:rm-" + where + move)
+        elif t[0] == "set" and res.startswith("ok"):
+            a = [i for i, (h, _k) in enumerate(prev) if h == int(t[1])]
+            b = [i for i, (h, _k) in enumerate(arr) if h == int(t[1])]
+            if a and b:
+                ck.count("class:update-" + ("up" if b[0] < a[0] else "down" if b[0] > a[0] else "stays"))
+        elif t[0] in ("insl", "build", "sort"):
+            m = int(t[1]) if len(t) > 1 else 0
+            ck.count("class:%s-n=%s%s" % (t[0], m if m < 3 else ("even" if m % 2 == 0 else "odd"),
+                                          "-into-loaded-heap" if prev and t[0] != "build" else ""))
+        elif t[0] == "poke":
+            ck.count("class:rebuild-after-%s-writes" % ("0" if len(t) <= 2 else "all" if (len(t) - 2) // 2 >= len(prev) > 0 else "some"))
+        elif t[0] == "clear":
+            ck.count("class:clear-" + ("loaded" if prev else "empty"))
+        if n >= 256:
+            ck.count("class:op-on-heap>=256")
+        prev = arr
+
+
+def judge(ck, hbin, script, tag, pre=None):
     """returns True if everything is fine for this script."""
-    impl, rc, err, model = run_script(ck, hbin, script)
+    impl, rc, err, model = pre if pre is not None else run_script(ck, hbin, script)
     ck.traces_validated += 1
+    classify(ck, script, impl)
     nontrivial = False
     sizes = 0
     for ln, o in zip(script[1:], impl):
@@ -1208,11 +1385,16 @@ def setup(ck):
 
 
 def run(ck):
-    ck.rule = ("scripts of heap operations (corpus, random mixes, directed interior removals, exhaustive short "
-               "sequences in the thorough tier), each ending in a full drain; a script is non-trivial if it removes or "
-               "re-keys an element while the heap holds >= 4 elements; distinct by script text")
+    ck.rule = ("scripts of heap operations (corpus, random mixes over five comparators incl. a one-class and a residue order, directed "
+               "interior removals, directed updates/rebuilds in both directions and onto ties, histories that reuse the heap after "
+               "clear/buildFrom/drain with handles of an earlier life and empty/one-element containers, 300-700 element heaps, all "
+               "sequences of length <= 2 over a 13-letter alphabet (<= 4 in the thorough tier)), each ending in a full drain; a script is "
+               "non-trivial if it removes or re-keys an element while the heap holds >= 4 elements; distinct by script text")
     ck.trusted += ["harness/heap.cpp opens `private` of BinaryHeap.h for its own translation unit to read vector_ and position",
-                   "model abstractions: swap-based sifting instead of hole-moving, handle lookup instead of the position field"]
+                   "two models run in lock-step with the template: Model/HeapFull.lean (hole-moving percolation with every position store, "
+                   "callbacks, all member functions in the code's statement order - its dump, positions and callbacks are what is compared) "
+                   "and the swap-based / handle-search Model/Heap.lean the order theorems are about; whole_class_refines_search proves them "
+                   "equal on every contract-respecting sequence and the driver prints `model-split` if they ever differed"]
     ck.assumptions += ["the comparison functor is a strict weak order (C++'s own requirement)",
                        "pop()/top() on an empty heap and use of a dead handle are outside the API contract and not exercised on the real code"]
     ck.rule += ("; engine 2 (heapusers): scripts of public-API operations on the heap's users - GridB<CellData*,..> with a "
@@ -1249,27 +1431,40 @@ def run(ck):
             continue
         if not judge(ck, hbin, script, "corpus"):
             bad += 1
-    nrand, ndir = (250, 250) if ck.tier == "quick" else (1500, 1500)
+    quick1 = ck.tier == "quick"
+    nrand, ndir, nupd, nhist, nbig = (250, 250, 150, 200, 6) if quick1 else (1500, 1500, 1200, 1500, 60)
+    jobs1 = []
     for i in range(nrand):
-        if bad >= 3:
-            break
         r = ck.rng.fork("rand%d" % i)
-        if not judge(ck, hbin, gen_random(r, r.choice([10, 40, 150, 400])), "random"):
-            bad += 1
+        jobs1.append((gen_random(r, r.choice([10, 40, 150, 400])), "random"))
     for i in range(ndir):
-        if bad >= 3:
-            break
-        if not judge(ck, hbin, gen_directed_remove(ck.rng.fork("dir%d" % i)), "directed-remove"):
-            bad += 1
-    if ck.tier == "thorough" and bad == 0:
-        n = 0
-        for L in (1, 2, 3):
-            for script in gen_exhaustive(L):
-                n += 1
-                if not judge(ck, hbin, script, "exhaustive-len%d" % L):
-                    bad += 1
+        jobs1.append((gen_directed_remove(ck.rng.fork("dir%d" % i)), "directed-remove"))
+    for i in range(nupd):
+        jobs1.append((gen_directed_update(ck.rng.fork("upd%d" % i)), "directed-update"))
+    for i in range(nhist):
+        jobs1.append((gen_history(ck.rng.fork("hist%d" % i)), "history"))
+    for i in range(nbig):
+        jobs1.append((gen_big(ck.rng.fork("big%d" % i)), "big"))
+    # all operation sequences of length <= 2 (quick) / <= 4 (thorough) over the small alphabet
+    nex = 0
+    for L in ((1, 2) if quick1 else (1, 2, 3, 4)):
+        for script in gen_exhaustive(L):
+            nex += 1
+            jobs1.append((script, "exhaustive-len%d" % L))
+    ck.extra_cov["exhaustive_sequences"] = nex
+    with concurrent.futures.ThreadPoolExecutor(max_workers=WORKERS) as ex:
+        chunk = 128
+        for a in range(0, len(jobs1), chunk):
+            if bad >= 3:
+                break
+            part = jobs1[a:a + chunk]
+            pres = list(ex.map(lambda j: run_script(ck, hbin, j[0]), part))
+            for (script, tag), pre in zip(part, pres):
+                if bad >= 3:
                     break
-        ck.extra_cov["exhaustive_sequences"] = n
+                if not judge(ck, hbin, script, tag, pre):
+                    bad += 1
+    ck.log("engine 1 (heap): %d generated scripts + corpus judged" % len(jobs1))
     # ---- engine 2: the heap's users
     quick = ck.tier == "quick"
     ujobs = [(script, "corpus") for name, script in allcorpus if script[0].split()[0] in HU_USERS]
@@ -1294,7 +1489,7 @@ def run(ck):
         # long runs matter: in-place re-keying of queued edges happens on rewirings, i.e. in later batches (ABIT*: inflated searches)
         ujobs.append((hu_gen_planner(r, r.choice([30, 100, 300, 300]) if quick else r.choice([100, 300, 600]), HU_PLANNERS[i % len(HU_PLANNERS)]), "planner-run"))
     ubad = 0
-    with concurrent.futures.ThreadPoolExecutor(max_workers=min(16, (os.cpu_count() or 4))) as ex:
+    with concurrent.futures.ThreadPoolExecutor(max_workers=WORKERS) as ex:
         chunk = 64
         for a in range(0, len(ujobs), chunk):
             if ubad >= 3:
@@ -1374,7 +1569,14 @@ MANIFEST = {
             "for every finite operation sequence, every key multiset and every strict weak order; top is a minimum; draining "
             "yields a sorted permutation; handles name their own element; the position field refines handle search; percolate as "
             "coded = the swap model), tied to BinaryHeap.h by line-by-line differential runs of the real template against "
-            "the compiled model, plus an abstract-map oracle on the implementation's own outputs. "
+            "the compiled model, plus an abstract-map oracle on the implementation's own outputs. Round 10: the WHOLE class as coded "
+            "(Model/HeapFull.lean: hole-moving percolateUp/Down with every ->position store, removePos, build, insert(vector) with "
+            "pos = i + n, buildFrom, remove/update through element->position, sort on separate elements, the callback log) is an "
+            "executable Lean state machine run in lock-step with the template (array, every position field, every callback); "
+            "whole_class_refines_search proves it equal to the search/swap model with all positions = indices for every "
+            "contract-respecting sequence over the full alphabet, as_coded_top_min_pops_sorted restates the two order clauses for it, "
+            "callbacks_fire_as_specified characterises the log, and refines_multiset proves every history a run of the abstract "
+            "handle->key map of the property text (size = number of live elements; pop removes some minimum). "
             "Engine 2 (heapusers) covers the property's anchors in the heap's USERS - GridB's internal_/external_ heaps (directly and "
             "through KPIECE's Discretization), EIT*'s ReverseQueue/ForwardQueue standalone, and the BIT*/ABIT*/AIT*/EIT*/EIRM* queues "
             "inside planner runs: each user is driven through its public API and the underlying heap array is dumped after every "
